@@ -90,6 +90,7 @@ EXT_CLASS_METHODS = {
     "object": {},
 }
 BUILTINS = set(dir(__import__("builtins")))
+ROWKINDS = (("rows",), ("prow",))  # first axis = instances; "prow": a pandas object (label-indexed rows)
 DIMKIND = {
     NP: {0: "instances", -3: "instances", 1: "columns", -2: "columns", 2: "time", -1: "time"},
     PD: {0: "instances", -2: "instances", 1: "columns", -1: "columns"},
@@ -105,6 +106,7 @@ class Summary:
         self.returns = True  # a normal return is reachable
         self.used = False  # the tracked value was used at all
         self.viol4 = []  # (key, what, loc): instance-independence findings (R4), reported for apply-type entry points
+        self.reach_raises = set()  # (relpath, line) of raise statements reachable here or in callees given the panel
         self.batch_names = set()  # locals that hold the whole batch (panel / per-instance rows) somewhere
         self.reach_assign = {}  # local name -> ids of reachable statements that (re)bind it
         self.retdim = None  # frozenset of dimension values returned (R3), None = unknown
@@ -294,10 +296,12 @@ class _FnRun:
                 if isinstance(rv, ast.Tuple) and rv.elts:
                     rv = rv.elts[0]
                 rets.append(self.eval_value(rv, env))
+            if isinstance(n.stmt, ast.Raise):
+                self.out.reach_raises.add((self.module.relpath, n.stmt.lineno))
             if n.kind == "stmt" and isinstance(n.stmt, ast.Assign):
                 self.record_stores(n.stmt, env)
             for nm, st0 in env.items():
-                if any(c in (NP, PD) or c == ("rows",) for c in st0):
+                if any(c in (NP, PD) or c in ROWKINDS for c in st0):
                     self.out.batch_names.add(nm)
             if n.kind == "stmt" and isinstance(n.stmt, (ast.Assign, ast.AugAssign, ast.AnnAssign)):
                 tg = n.stmt.targets if isinstance(n.stmt, ast.Assign) else [n.stmt.target]
@@ -322,6 +326,13 @@ class _FnRun:
                        if not _inside_inner_loop(loop, x)):
                     continue
                 car = sorted(carried_names(loop.body, _target_names(loop.target)) - _pure_counters(loop.body))
+                shared = carried_buffers(self.fn, loop)
+                if shared:
+                    self.viol4_at("instance-loop#%d:buffer" % (sorted((x.lineno, x.col_offset) for x in astq.walk_no_nested(self.fn)
+                                                                      if isinstance(x, ast.For)).index((loop.lineno, loop.col_offset)) + 1),
+                                  "the array %s is created before the per-instance loop of %s, partially overwritten for each instance "
+                                  "and read back: what an earlier (longer) instance wrote stays in it for the next one" % (
+                                      ", ".join(shared), qualname(self.fn, self.defcls)), self.loc(loop))
                 ordinal = sorted((x.lineno, x.col_offset) for x in astq.walk_no_nested(self.fn)
                                  if isinstance(x, ast.For)).index((loop.lineno, loop.col_offset)) + 1
                 if car:
@@ -375,7 +386,7 @@ class _FnRun:
         n = len(t.elts)
         if (c == NP and n == 3) or (c == PD and n == 2):
             return [_fs(("dim", DIMKIND[c][i])) for i in range(n)]
-        if c == ("rows",) and n == 2:
+        if c in ROWKINDS and n == 2:
             return [_fs(("dim", "instances")), None]
         return None
 
@@ -587,6 +598,7 @@ class _FnRun:
             return next(iter(s))
 
         ROWS = ("rows",)
+        PROW = ("prow",)
         # --- sub-selections: all instances of some columns ("rows") vs. some instances ("select", "instances")
         if isinstance(e, ast.Subscript) and isinstance(e.value, ast.Name) and one(e.value.id) == NP:
             sl = e.slice
@@ -599,18 +611,18 @@ class _FnRun:
                 and isinstance(e.value.value, ast.Name) and one(e.value.value.id) == PD and isinstance(e.slice, ast.Tuple) \
                 and len(e.slice.elts) == 2 and isinstance(e.slice.elts[0], ast.Slice) and e.slice.elts[0].lower is None \
                 and e.slice.elts[0].upper is None:
-            return _fs(ROWS)
+            return _fs(PROW)
         # --- values whose first axis is still the instance axis ("rows")
         if isinstance(e, ast.Subscript) and isinstance(e.value, ast.Name) and one(e.value.id) == PD \
                 and not isinstance(e.slice, (ast.Slice, ast.Tuple)):
-            return _fs(ROWS)  # column(s) of a nested frame: one cell per instance
+            return _fs(PROW)  # column(s) of a nested frame: one cell per instance, indexed by the row labels
         if isinstance(e, ast.Subscript) and isinstance(e.value, ast.Attribute) and e.value.attr == "iloc" \
                 and isinstance(e.value.value, ast.Name) and one(e.value.value.id) == PD and isinstance(e.slice, ast.Tuple) \
                 and len(e.slice.elts) == 2 and isinstance(e.slice.elts[0], ast.Slice) and e.slice.elts[0].lower is None \
                 and e.slice.elts[0].upper is None and e.slice.elts[0].step is None:
-            return _fs(ROWS)
+            return _fs(PROW)
         if isinstance(e, ast.Subscript) and isinstance(e.value, ast.Attribute) and e.value.attr == "shape" \
-                and isinstance(e.value.value, ast.Name) and one(e.value.value.id) == ROWS and _const_int(e.slice) == 0:
+                and isinstance(e.value.value, ast.Name) and one(e.value.value.id) in ROWKINDS and _const_int(e.slice) == 0:
             return _fs(("dim", "instances"))
         if isinstance(e, (ast.ListComp,)) and len(e.generators) == 1 and not e.generators[0].ifs \
                 and self.instance_iter(e.generators[0].iter, env):
@@ -623,18 +635,20 @@ class _FnRun:
             r0 = self.resolve(e)
             if r0[0] == "repo" and id(r0[1]) in self.an.rows_helpers and e.args:
                 a0 = self.eval_value(e.args[0], env)
-                if a0 and len(a0) == 1 and (next(iter(a0)) in self.an.rows_helpers[id(r0[1])] or next(iter(a0)) == ROWS):
-                    return _fs(ROWS)
+                if a0 and len(a0) == 1 and (next(iter(a0)) in self.an.rows_helpers[id(r0[1])] or next(iter(a0)) in ROWKINDS):
+                    as_numpy = any(k.arg == "return_numpy" and isinstance(k.value, ast.Constant) and k.value.value is True
+                                   for k in e.keywords) or self.an.rows_helpers[id(r0[1])] == (NP,)
+                    return _fs(ROWS if as_numpy else PROW)
             if r0[0] == "ext" and r0[1] == "pandas.DataFrame" and len(e.args) == 1 and not e.keywords:
                 a0 = self.eval_value(e.args[0], env)
-                if a0 == _fs(ROWS):
-                    return a0
+                if a0 and len(a0) == 1 and next(iter(a0)) in ROWKINDS:
+                    return _fs(PROW)
             if r0[0] == "ext" and r0[1] == "numpy.reshape" and len(e.args) == 2 and isinstance(e.args[0], ast.Name) \
                     and one(e.args[0].id) == NP and isinstance(e.args[1], (ast.Tuple, ast.List)) and e.args[1].elts \
                     and self.eval_value(e.args[1].elts[0], env) == _fs(("dim", "instances")):
                 return _fs(ROWS)
             if r0[0] == "ext" and r0[1] == "builtins.len" and len(e.args) == 1 and isinstance(e.args[0], ast.Name) \
-                    and one(e.args[0].id) == ROWS:
+                    and one(e.args[0].id) in ROWKINDS:
                 return _fs(("dim", "instances"))
 
         if isinstance(e, ast.Subscript) and isinstance(e.value, ast.Attribute) and isinstance(e.value.value, ast.Name):
@@ -642,7 +656,7 @@ class _FnRun:
             if a == "shape" and base is not None:
                 kv = _const_int(e.slice)
                 if isinstance(kv, int) and not isinstance(kv, bool):
-                    if base == ("rows",):
+                    if base in ROWKINDS:
                         return _fs(("dim", "instances" if kv == 0 else "other"))
                     if base in (NP, PD) and kv in DIMKIND[base]:
                         return _fs(("dim", DIMKIND[base][kv]))
@@ -652,6 +666,19 @@ class _FnRun:
             if a == "iloc" and base == PD and isinstance(e.slice, ast.Tuple) and len(e.slice.elts) == 2 \
                     and not any(isinstance(x, ast.Slice) for x in e.slice.elts):
                 return _fs(("cell",))
+            return None
+        if isinstance(e, ast.BinOp) and isinstance(e.op, ast.FloorDiv):
+            l = self.eval_value(e.left, env)
+            if l == _fs(("dim", "instances")):
+                return _fs(("dimfloor", astq.canon(self.resolve_local(e.right))))
+            return None
+        if isinstance(e, ast.BinOp) and isinstance(e.op, ast.Mult):
+            for a, b in ((e.left, e.right), (e.right, e.left)):
+                va = self.eval_value(a, env)
+                if va and len(va) == 1 and next(iter(va))[0] == "dimfloor" \
+                        and next(iter(va))[1] == astq.canon(self.resolve_local(b)):
+                    # k * (n // k): the largest multiple of k below n -- not the number of instances
+                    return _fs(("dim", "instances rounded down to a multiple of %s" % next(iter(va))[1]))
             return None
         if isinstance(e, ast.Attribute) and isinstance(e.value, ast.Name):
             base = one(e.value.id)
@@ -691,6 +718,13 @@ class _FnRun:
                     return frozenset(out) or None
         return None
 
+    def resolve_local(self, e):
+        if isinstance(e, ast.Name):
+            vals = astq.assigned_values(self.fn, e.id)
+            if len(vals) == 1 and not isinstance(vals[0], ast.Name):
+                return e
+        return e
+
     def index_var_kind(self, it, env):
         """`range(D)` / `range(0, D)` with D a known axis length -> that axis ('instances' / 'columns' / 'time' / 'other')."""
         if isinstance(it, ast.Call) and not it.keywords and 1 <= len(it.args) <= 2:
@@ -701,6 +735,17 @@ class _FnRun:
                     (c,) = tuple(d)
                     if isinstance(c, tuple) and c[0] == "dim":
                         return c[1]
+            if r[0] == "ext" and r[1] == "builtins.range" and len(it.args) == 2:
+                # range(start, stop) between positions of a blocked enumeration: the positions inherit the axis of `start`
+                d = self.eval_value(it.args[0], env)
+                if d and len(d) == 1 and isinstance(next(iter(d)), tuple) and next(iter(d))[0] == "idxvar":
+                    return next(iter(d))[1]
+        if isinstance(it, ast.Call) and not it.keywords and len(it.args) == 3 and _const_int(it.args[0]) == 0:
+            r = self.resolve(it)
+            if r[0] == "ext" and r[1] == "builtins.range":
+                d = self.eval_value(it.args[1], env)  # block starts 0, s, 2s, ... below the bound
+                if d and len(d) == 1 and isinstance(next(iter(d)), tuple) and next(iter(d))[0] == "dim":
+                    return next(iter(d))[1]
         return None
 
     def index_use(self, sub, env):
@@ -713,15 +758,23 @@ class _FnRun:
         if not st or len(st) != 1:
             return
         (c,) = tuple(st)
-        if not (isinstance(c, tuple) and c[0] == "idxvar" and c[1] != "instances"):
+        if not (isinstance(c, tuple) and c[0] == "idxvar"):
             return
         holder = base.value if isinstance(base, ast.Attribute) and base.attr == "iloc" else base
         if not isinstance(holder, ast.Name):
+            return
+        hs0 = env.get(holder.id)
+        if holder is base and hs0 == _fs(("prow",)) and isinstance(c, tuple) and c[0] == "idxvar" and not isinstance(idx, ast.Tuple):
+            self.viol4_at("label-lookup", "%s looks the instance up by *label* in a pandas object (rows of a nested frame), but %s is a "
+                          "position 0..n-1: for a frame whose row index is not 0..n-1 another instance (or a KeyError) is taken in %s; "
+                          "use .iloc" % (astq.canon(sub)[:50], first.id, qualname(self.fn, self.defcls)), self.loc(sub),)
             return
         hs = env.get(holder.id)
         if not hs or len(hs) != 1:
             return
         (h,) = tuple(hs)
+        if c[1] == "instances":
+            return
         positional_first_axis = (h == NP and holder is base) or (h == ("rows",) and holder is base) or (
             h == PD and holder is not base)
         if positional_first_axis:
@@ -733,7 +786,7 @@ class _FnRun:
     def instance_iter(self, it, env):
         """Does iterating ``it`` visit the instances of the batch one by one?"""
         v = self.eval_value(it, env) if not isinstance(it, ast.Call) else None
-        if v is not None and (v == _fs(("rows",)) or v == _fs(NP)):
+        if v is not None and (v == _fs(("rows",)) or v == _fs(("prow",)) or v == _fs(NP)):
             return True
         if isinstance(it, ast.Call):
             r = self.resolve(it)
@@ -744,7 +797,7 @@ class _FnRun:
             if r[0] == "ext" and r[1] in ("builtins.enumerate", "builtins.zip") and it.args:
                 return any(self.instance_iter(a, env) for a in it.args)
             v = self.eval_value(it, env)
-            return v is not None and v == _fs(("rows",))
+            return v is not None and (v == _fs(("rows",)) or v == _fs(("prow",)))
         return False
 
     def dcall(self, call, env):
@@ -767,6 +820,7 @@ class _FnRun:
                 self.und_at("%s>%s" % (qn, k), why, loc)
             for k, what, loc in sm.viol4:
                 self.viol4_at("%s>%s" % (qn, k), "%s (reached through %s)" % (what, qn), loc)
+            self.out.reach_raises |= sm.reach_raises
 
     def viol4_at(self, key, what, loc):
         if self.collect and ("4", key) not in self._seen:
@@ -1220,6 +1274,7 @@ class _FnRun:
                     self.und_at("%s>%s" % (qn, k), why, loc)
                 for k, what, loc in sm.viol4:
                     self.viol4_at("%s>%s" % (qn, k), "%s (reached through %s)" % (what, qn), loc)
+                self.out.reach_raises |= sm.reach_raises
                 if not sm.returns and len(bind) == 1 and all(x in (NP, PD) for s0 in bind.values() for x in s0):
                     (p, s), = bind.items()
                     (c,) = tuple(s)
@@ -1277,6 +1332,14 @@ class _FnRun:
             self.out.und.append((key, why, loc))
 
     def guarded_by_callable(self, call, name):
+        n = call
+        while n is not None:
+            par = self.parents.get(id(n))
+            if isinstance(par, ast.IfExp) and par.body is n and isinstance(par.test, ast.Call) and isinstance(par.test.func, ast.Name) \
+                    and par.test.func.id == "callable" and len(par.test.args) == 1 and isinstance(par.test.args[0], ast.Name) \
+                    and par.test.args[0].id == name:
+                return True
+            n = par
         for st in astq.enclosing_stmts(self.fn, call):
             if isinstance(st, ast.If) and isinstance(st.test, ast.Call) and isinstance(st.test.func, ast.Name) \
                     and st.test.func.id == "callable" and len(st.test.args) == 1 \
@@ -1327,6 +1390,45 @@ def _pure_counters(body):
         if real and all(real) and kinds.count(None) == len(real):
             out.add(nm)
     return out
+
+
+def carried_buffers(fn, loop):
+    """Names bound (to a fresh array) before the loop whose elements are stored inside the loop at positions that are not the
+    loop's own instance position, and which are read inside the loop: a buffer shared by all instances."""
+    bound_inside = {x.id for b in loop.body for x in ast.walk(b) if isinstance(x, ast.Name) and isinstance(x.ctx, ast.Store)}
+    own = set(_target_names(loop.target))
+    out = []
+    store_roots = {}
+    for b in loop.body:
+        for n in ast.walk(b):
+            tgts = n.targets if isinstance(n, ast.Assign) else ([n.target] if isinstance(n, ast.AugAssign) else [])
+            for t in tgts:
+                if not isinstance(t, ast.Subscript):
+                    continue
+                chain = t
+                while isinstance(chain.value, ast.Subscript):
+                    chain = chain.value
+                root = chain.value
+                if not isinstance(root, ast.Name) or root.id in bound_inside or root.id in own:
+                    continue
+                idx = chain.slice
+                first = idx.elts[0] if isinstance(idx, ast.Tuple) and idx.elts else idx
+                at_own_position = isinstance(first, ast.Name) and (first.id in own or first.id in bound_inside)
+                store_roots.setdefault(root.id, []).append((at_own_position, t))
+    for name, stores in store_roots.items():
+        if all(o for o, _ in stores):
+            continue
+        inits = astq.assigned_values(fn, name)
+        fresh = len(inits) == 1 and isinstance(inits[0], ast.Call) and (dotted(inits[0].func) or "").split(".")[-1] in (
+            "full", "zeros", "empty", "ones", "array", "zeros_like", "empty_like", "full_like")
+        if not fresh:
+            continue
+        store_ids = {id(x) for _, t in stores for x in ast.walk(t)}
+        reads = [x for b in loop.body for x in ast.walk(b) if isinstance(x, ast.Name) and x.id == name and isinstance(x.ctx, ast.Load)
+                 and id(x) not in store_ids]
+        if reads:
+            out.append(name)
+    return sorted(out)
 
 
 class _BodyFn:
@@ -1569,7 +1671,7 @@ def run(ctx):
     ctx.floor("R4", 32)
     ctx.floor("R5", 4)
     ctx.floor("R6", 31)
-    ctx.floor("R7", 28)
+    ctx.floor("R7", 34)
 
 
 
@@ -2117,7 +2219,8 @@ def helper_conformance(ctx, repo):
     if dims[NP] is None or dims[PD] is None:
         ctx.undecided("R7", c0, "returned selection not interpretable (%s / %s)" % (dims[NP], dims[PD]), ctx.loc(repo.module(ce), gc))
     else:
-        ctx.check(dims[NP] == dims[PD] == _fs(("rows",)), "R7", c0, "selects columns (all instances) for both containers",
+        norm = lambda d: frozenset(("rows",) if x == ("prow",) else x for x in d)
+        ctx.check(norm(dims[NP]) == norm(dims[PD]) == _fs(("rows",)), "R7", c0, "selects columns (all instances) for both containers",
                   "for a 3-d array the helper returns %s, for a nested frame %s: members of the column ensemble are fed instances "
                   "instead of columns for one container" % (_dimshow(dims[NP]), _dimshow(dims[PD])), ctx.loc(repo.module(ce), gc),
                   witness={"input": "X3d of shape (n, 3, t), key [0]"})
@@ -2188,6 +2291,24 @@ def validator_model(ctx, repo, an):
                       "%s defaults to False (no coercion unless asked)" % flag,
                       "%s defaults to %s: callers that pass no flag get a converted container" % (
                           flag, astq.canon(d) if d is not None else "<none>"), loc)
+        reach = {}
+        for c in (NP, PD):
+            for to_np, to_pd in ((False, False), (True, False), (False, True)):
+                bind = {"X": _fs(c), "coerce_to_numpy": _fs(("const", to_np)), "coerce_to_pandas": _fs(("const", to_pd))}
+                reach[(c, to_np, to_pd)] = an.summary(fn, mod, None, None, bind).reach_raises
+        neutral = set().union(*[r for (c, _, _), r in reach.items() if c == NP]) & set().union(
+            *[r for (c, _, _), r in reach.items() if c == PD])
+        for to_np, to_pd in ((False, False), (True, False), (False, True)):
+            diff = sorted((reach[(NP, to_np, to_pd)] ^ reach[(PD, to_np, to_pd)]) & neutral)
+            construct = "%s:guards[numpy=%s,pandas=%s]" % (fname, to_np, to_pd)
+            if diff:
+                missing_for = NP if diff[0] not in reach[(NP, to_np, to_pd)] else PD
+                ctx.violation("R7", construct, "the rejecting guard at %s:%s (a validation that applies to both containers) is not "
+                              "reached for a %s panel with these flags but is for the other container: the same data is validated "
+                              "differently depending on its container" % (diff[0][0], diff[0][1], missing_for), loc,
+                              witness={"input": "multivariate / too small panel passed as %s" % missing_for})
+            else:
+                ctx.ok("R7", construct, "both containers pass the same container-neutral rejecting guards (%d)" % len(neutral), loc)
         for c in (NP, PD):
             for to_np, to_pd in ((False, False), (True, False), (False, True), (True, True)):
                 if to_np and to_pd and fname != "check_X":
